@@ -47,8 +47,19 @@ def _prepare_corpus():
 
 
 # configurations that are not plain `cargo check` runs in /repo: name -> (prepare fn returning cwd, cargo args, expected crates)
+def _prepare_fixtures():
+    out = os.path.join(CACHE, "fixtures")
+    src = os.path.join(VERIF, "fixtures")
+    os.makedirs(os.path.join(out, "src"), exist_ok=True)
+    shutil.copyfile(os.path.join(src, "Cargo.toml"), os.path.join(out, "Cargo.toml"))
+    shutil.copyfile(os.path.join(src, "src", "lib.rs"), os.path.join(out, "src", "lib.rs"))
+    shutil.copyfile(os.path.join(REPO, "Cargo.lock"), os.path.join(out, "Cargo.lock"))
+    return out
+
+
 SPECIAL = {
     "corpus": (_prepare_corpus, [], ["verif_corpus"]),
+    "fixtures": (_prepare_fixtures, [], ["verif_fixtures"]),
 }
 CONFIGS["pmcore"] = (["-p", "jsonrpsee-proc-macro-core"], ["jsonrpsee_proc_macro_core"])
 CONFIGS["repo-programs"] = (["-p", "jsonrpsee-integration-tests", "-p", "jsonrpsee-examples", "-p", "jsonrpsee-proc-macro-core", "--tests", "--examples", "--lib"], ["jsonrpsee_proc_macro_core"])
@@ -146,7 +157,8 @@ def ensure_facts(config="libs-all", verbose=False):
     os.makedirs(CACHE, exist_ok=True)
     th = tree_hash()
     if config in SPECIAL:
-        with open(os.path.join(VERIF, "corpus", "gen.py"), "rb") as fh:
+        extra = os.path.join(VERIF, "corpus", "gen.py") if config == "corpus" else os.path.join(VERIF, "fixtures", "src", "lib.rs")
+        with open(extra, "rb") as fh:
             th = hashlib.sha256((th + hashlib.sha256(fh.read()).hexdigest()).encode()).hexdigest()[:24]
     out_dir = os.path.join(CACHE, "facts", th, config)
     stamp = os.path.join(out_dir, "OK")
